@@ -275,6 +275,11 @@ def check_grammar_text(text, drv, ctx, stream, index):
         return 'C08:non-LL1-grammar-accepted:' + sp
     if sp != impl_plans(pg):
         return 'C08:plan-table-differs-from-first-set-specification'
+    # the table that classifies NAME / OP tokens as keywords / operators holds exactly the string terminals of THIS text (whatever was generated before)
+    import ast as _ast
+    lits = set(_ast.literal_eval(val) for typ, val in translator.ebnf_lex(text) if typ == 'STR')
+    if set(pg.reserved_syntax_strings) != lits:
+        return 'C08:reserved-strings-differ-from-the-terminals-of-the-text'
     ctx.nontrivial((stream, text))
     return None
 
@@ -354,8 +359,29 @@ def run(ctx, b, drv):
         ok = st == 'ok' and sp == impl_plans(pg)
         ctx.add_obligation('spec:plan table of grammar %s = first-set specification, no token claimed twice' % v, ok)
         ctx.count('spec-plans', sum(len(x) for x in impl_plans(pg).values()))
+        import ast as _ast, os as _os
+        gtext = open(_os.path.join(_os.path.dirname(parso.__file__), 'python', 'grammar%s.txt' % impl.vn(v))).read()
+        lits = set(_ast.literal_eval(val) for typ, val in translator.ebnf_lex(gtext) if typ == 'STR')
+        rs_ok = set(pg.reserved_syntax_strings) == lits
+        ctx.add_obligation('spec:reserved strings of grammar %s = string terminals of its text' % v, rs_ok)
+        if not rs_ok:
+            ctx.violation('C08:reserved-strings-differ-from-the-terminals-of-the-text', dict(kind='input', version=v,
+                          extra=sorted(set(pg.reserved_syntax_strings) - lits), missing=sorted(lits - set(pg.reserved_syntax_strings))))
         if not ok:
             ctx.violation('C08:shipped-plan-table-differs-from-specification', dict(kind='input', version=v, status=st))
+    # generation is a function of the text: the oldest grammar text generated again after all the others gives the same reserved strings and plans
+    v0 = streams.versions()[0]
+    import os as _os
+    gtext0 = open(_os.path.join(_os.path.dirname(parso.__file__), 'python', 'grammar%s.txt' % impl.vn(v0))).read()
+    pg0 = parso.load_grammar(version=v0)._pgen_grammar
+    pg0b = generate_grammar(gtext0, T)
+    st0b, sp0b = spec_plans(pg0b.nonterminal_to_dfas)      # (state numbering differs between two generations: each table is compared with its own specification)
+    same = set(pg0.reserved_syntax_strings) == set(pg0b.reserved_syntax_strings) and st0b == 'ok' and sp0b == impl_plans(pg0b)
+    ctx.add_obligation('spec:grammar %s generated again after the later grammars has the same tables' % v0, same)
+    if not same:
+        ctx.violation('C08:tables-depend-on-grammars-generated-before', dict(kind='history', version=v0,
+                      steps=['load grammars %s' % ', '.join(streams.versions()), 'generate_grammar(grammar%s.txt)' % impl.vn(v0)],
+                      extra=sorted(set(pg0b.reserved_syntax_strings) - set(pg0.reserved_syntax_strings))))
     n = 400 if ctx.tier == 'quick' else 12000
     for i in range(n):
         r = gens.rng(ctx.seed, 'pgen', i)
